@@ -896,6 +896,7 @@ func (h *harness) runAll(big int) {
 		}
 	}
 	h.ckptCases()
+	h.rsaCkptCases()
 	h.archivalCases()
 }
 
